@@ -57,6 +57,11 @@ func properties() map[string]Property {
 		c01 = append(c01, Job{Harness: "H_C01_R", Args: a, Tier: "thorough", Covers: []string{"C01.R.done"},
 			Bounds: "three-rectangle families (8: R(1,2) with the clips side by side inside the subject's x-range; 9: R(2,1) likewise; 10/11: abutting on a shared line; 12: R(1,2) with overlapping clips) and R(2,0) (1); args (family, clip type, fill rule)"})
 	}
+	f15 := "family 15: subjects A, B abutting on x = xm, A spanning the scanline y = yl that carries B's top edge and the bottom edge of clip C, C straddling xm (10 side coordinates symbolic in [-2^29, 2^29]; ay0/by0, ay1/cy1, cx1/bx1 relations free; positive orientation)"
+	c01 = append(c01, Job{Harness: "H_C01_R", Args: []int64{15, 4, 1}, Tier: "quick", Covers: []string{"C01.R.done"}, Bounds: f15 + "; Xor, EvenOdd"})
+	for _, a := range [][]int64{{15, 1, 1}, {15, 2, 2}, {15, 3, 1}, {15, 4, 3}} {
+		c01 = append(c01, Job{Harness: "H_C01_R", Args: a, Tier: "thorough", Covers: []string{"C01.R.done"}, Bounds: f15 + "; args (family, clip type, fill rule)"})
+	}
 	ps["C01"] = Property{ID: "C01", Level: "model_checking",
 		Explain: "every feasible path of the real sweep (BooleanOpPaths64 and everything below it) on the stated input families, region asserted at a symbolic probe point against an exact winding-number oracle",
 		Assumes: []string{floatAssume, heapAssume, solverAssume, "probe points range over the integer lattice (a subset of the plane)"},
@@ -133,6 +138,10 @@ func properties() map[string]Property {
 	}
 	for _, a := range [][]int64{{1, 2, 1, 1}} {
 		c02 = append(c02, Job{Harness: "H_C02_R", Args: a, Tier: "thorough", Covers: []string{"C02.done"}, Bounds: rb(1)})
+	}
+	c02 = append(c02, Job{Harness: "H_C02_R", Args: []int64{15, 4, 1, 0}, Tier: "quick", Covers: []string{"C02.done"}, Bounds: f15 + "; Xor, EvenOdd"})
+	for _, a := range [][]int64{{15, 4, 2, 1}, {15, 1, 1, 2}, {15, 2, 1, 0}, {15, 3, 1, 3}} {
+		c02 = append(c02, Job{Harness: "H_C02_R", Args: a, Tier: "thorough", Covers: []string{"C02.done"}, Bounds: f15 + "; args (family, clip type, fill rule, options)"})
 	}
 	ps["C02"] = Property{ID: "C02", Level: "model_checking",
 		Explain: "the real sweep executed on every feasible path of the family; per output path: length, no repeated consecutive vertex (solver), winding 0/1 (0/-1 reversed) on every grid cell that can hold a probe 2 units from the solution's edges; re-union compared cell by cell",
